@@ -23,6 +23,9 @@ CHECKS = {
  "C06": ("fault_enumeration", "fault enumeration: every fault kind at every position behind every valid script prefix (bounded-exhaustive) + proptest prefixes; oracle over the peer's event log",
          "For all 17 sequences, every valid reply prefix up to depth 4 (thorough 5) is followed by each fault (4 NACK codes, packets outside the reply set, undecodable bodies inside it, truncated packets followed by end of stream, end of stream) at the acknowledgement position or instead of the next reply: exactly one Err after the Ok items, then None twice without I/O, and no byte written after the faulty bytes were released.",
          "Trusted: the fault model of Appendix C; malformed bodies are those both the reference decoder and the packet's own decoder reject.", "7/C06"),
+ "C07": ("exploration", "model-based testing: bounded-exhaustive and proptest-generated call histories, real client stepped alongside a reference ClientModel; request log decoded by the reference codec; final drain",
+         "The real Feig client runs against the simulated terminal while a reference model {open: token -> receipt, max} is stepped alongside. All histories of begin/commit/cancel over 3 tokens with every terminal outcome up to depth 3 (thorough 4), success-only to depth 4 (5), for max 0..3, and generated walks to length 40 over 5 tokens: after every call the result class, the traffic (refused calls: zero bytes, no connection; begin: one Reservation; commit/cancel: that token's receipt) and a final drain (cancel of every token) are compared.",
+         "Trusted: ClientModel in harness/src/props/c07.rs, simulated terminal; fault-free transport (faults are C09/C10).", "7/C07"),
  "C09": ("fault_enumeration", "fault enumeration (every position x {close, garbage, NACK, silence, wrong serial}) + proptest multi-fault plans; invariants over the client-side per-connection log on virtual time",
          "Single faults are injected at every packet position of every exchange of each public operation (handshake and reconnect handshake included), multi-fault plans are sampled, and every run ends with one more fault-free call. Invariants I1-I4 over the client-side connection log (open / bytes / close with virtual time) decide the property: registration and identity check first on every connection, no use of a wrong-serial connection, nothing written after a delivered fault and the connection dropped before the next opens, healthy connections kept and reused without re-registration.",
          "Trusted: simulated terminal and the logging stream wrapper (harness/src/sim.rs); fault model of DESIGN.md Appendix C. Only modelled fault kinds are explored.", "7/C09"),
@@ -47,6 +50,9 @@ CHECKS = {
  "C17": ("exploration", "exhaustive enumeration (u8/u16, tags, short strings) + proptest generation (wide integers, digit strings, text) against reference encoders",
          "Round trips and exact reference bytes for LE/BE/BCD integers, tags, hex, CP437 and receipt numbers: small domains exhaustively, wide ones at all digit/bit boundaries plus seeded random values; BCD digit strings of every length 0..11 bytes must give the exact value or an error.",
          "Trusted: own BCD / CP437 (Unicode mapping) / tag reference functions. Non-decimal BCD nibbles are only required not to panic (the repository's captured PANs contain masked digits).", "7/C17"),
+ "C19": ("exploration", "model-based testing over the C07 histories x ledgers with dangling pre-authorisations x end-of-day outcomes (all 256 abort codes once): trace invariant over the decoded request log",
+         "For every accepted commit/cancel of the generated histories the decoded request log is compared with the model: own exchange completed and no token open => exactly pending query -> reversal of the reported receipt (iff one is reported) -> end-of-day(password), Ok on completion or 'receiver not ready' (a0), the abort code otherwise; tokens still open => no pending query and no end-of-day. Dangling pre-authorisations are injected and arise naturally from no-receipt reservations and aborted reversals.",
+         "Trusted: model of the clean-up rule (props/c07.rs walk()), simulated terminal's FFFF-query reply (modelled on the captured partial_reversal.blob).", "7/C19"),
 }
 NOT_YET = {}
 def main():
